@@ -138,11 +138,14 @@ def run_cases(pid, case_terms, header="", shard=40, timeout=900):
         files.append(fn)
 
     def run(fn):
+        t0 = time.time()
         try:
             rc, out = sh(f"ulimit -s unlimited 2>/dev/null; timeout {timeout} coqc -Q {COQ} CK {fn}", timeout=timeout + 30)
         except subprocess.TimeoutExpired:
-            return None, "timeout"
-        return (_parse_lists(out) if rc == 0 else None), out[-2000:]
+            return None, f"timeout {fn}"
+        if os.environ.get("VERIF_DEBUG"):
+            print(f"  coqc {os.path.basename(fn)} rc={rc} {time.time() - t0:.1f}s", flush=True)
+        return (_parse_lists(out) if rc == 0 else None), f"{fn} rc={rc} " + out[-2000:]
 
     results = []
     logs = []
